@@ -4,6 +4,7 @@ import logging
 from typing import Any
 
 from pyopenapi_gen import IROperation
+from pyopenapi_gen.helpers.endpoint_utils import get_unique_param_names
 
 from ....context.render_context import RenderContext
 from ....core.utils import NameSanitizer
@@ -118,10 +119,9 @@ class OverloadMethodGenerator:
 
             type_service = UnifiedTypeService(self.schemas)
 
-            for param in op.parameters:
+            for param, sanitized_name in zip(op.parameters, get_unique_param_names(op)):
                 if param.param_in in ("path", "query", "header"):
                     param_type = type_service.resolve_schema_type(param.schema, context, required=param.required)
-                    sanitized_name = NameSanitizer.sanitize_method_name(param.name)
                     param_parts.append(f"{sanitized_name}: {param_type}")
 
         # Add keyword-only separator
@@ -210,10 +210,9 @@ class OverloadMethodGenerator:
 
             type_service = UnifiedTypeService(self.schemas)
 
-            for param in op.parameters:
+            for param, sanitized_name in zip(op.parameters, get_unique_param_names(op)):
                 if param.param_in in ("path", "query", "header"):
                     param_type = type_service.resolve_schema_type(param.schema, context, required=param.required)
-                    sanitized_name = NameSanitizer.sanitize_method_name(param.name)
                     param_parts.append(f"{sanitized_name}: {param_type}")
 
         # Add keyword-only separator
